@@ -366,7 +366,7 @@ def _show(v):
   return repr(v)
 
 
-@rule("R1.2", "C01", floor=4)
+@rule("R1.2", "C01", floor=5)
 def r1_2(ctx):
   """jump_if: normal_val is the complement of jump_if_val; same variable."""
   rel = "pytype/vm_utils.py"
@@ -462,7 +462,7 @@ def _returns(fn):
   return [n for n in ast.walk(fn) if isinstance(n, ast.Return)]
 
 
-@rule("R1.3", "C01", floor=6)
+@rule("R1.3", "C01", floor=9)
 def r1_3(ctx):
   """Unknown means 'may': default arms return top."""
   # compatible_with: final else returns True
@@ -856,6 +856,12 @@ VARIANTS = [
     {"name": "twin-jump-handler-through-shared-helper", "rule": "R1.1", "file": VM, "expect": "silent",
      "old": "  def byte_JUMP_IF_TRUE(self, state, op):\n    return vm_utils.jump_if(state, op, self.ctx, jump_if_val=True)",
      "new": "  def _cond_jump(self, state, op, val, pop=vm_utils.PopBehavior.NONE):\n    return vm_utils.jump_if(state, op, self.ctx, jump_if_val=val, pop=pop)\n\n  def byte_JUMP_IF_TRUE(self, state, op):\n    return self._cond_jump(state, op, True)"},
+    {"name": "twin-jump-handler-value-through-local", "rule": "R1.1", "file": VM, "expect": "silent",
+     "old": "  def byte_JUMP_IF_TRUE(self, state, op):\n    return vm_utils.jump_if(state, op, self.ctx, jump_if_val=True)",
+     "new": "  def byte_JUMP_IF_TRUE(self, state, op):\n    when = True\n    return vm_utils.jump_if(state, op, self.ctx, jump_if_val=when)"},
+    {"name": "jump-handler-value-through-rebound-local", "rule": "R1.1", "file": VM, "expect": "error",
+     "old": "  def byte_JUMP_IF_TRUE(self, state, op):\n    return vm_utils.jump_if(state, op, self.ctx, jump_if_val=True)",
+     "new": "  def byte_JUMP_IF_TRUE(self, state, op):\n    when = True\n    when = not when\n    return vm_utils.jump_if(state, op, self.ctx, jump_if_val=when)"},
     {"name": "jump-handler-through-shared-helper-wrong-value", "rule": "R1.1", "file": VM, "expect": "fire",
      "old": "  def byte_JUMP_IF_TRUE(self, state, op):\n    return vm_utils.jump_if(state, op, self.ctx, jump_if_val=True)",
      "new": "  def _cond_jump(self, state, op, val, pop=vm_utils.PopBehavior.NONE):\n    return vm_utils.jump_if(state, op, self.ctx, jump_if_val=val, pop=pop)\n\n  def byte_JUMP_IF_TRUE(self, state, op):\n    return self._cond_jump(state, op, False)"},
